@@ -18,7 +18,11 @@ struct Envelope {
 };
 
 int gv_exc;
+Index gv_k0;   /* ghost index for forall-introduction in postconditions */
+Index gv_zeros; /* ghost: number of zeroed pivots (cholDec P2) */
+Float gv_tol;   /* ghost: effective tolerance used by cholDec */
 #define FSZ ((long)sizeof(Float))
+#define GV_ABS_GE(x, t) ((x) >= (t) || -(x) >= (t))   /* |x| >= t without a call (invariants must be call-free) */
 #define MAXDIM 1000000
 #define MAXENV 100000000L
 
@@ -38,7 +42,7 @@ int gv_exc;
   ((E)->dim_ >= 1 && (E)->dim_ <= MAXDIM && (E)->gv_env_size >= 0 && (E)->gv_env_size <= MAXENV &&     \
    __CPROVER_rw_ok((E)->diag_, (E)->dim_ * sizeof(Float)) &&                                           \
    __CPROVER_rw_ok((E)->xenv_, ((E)->dim_ + 2) * sizeof(Float *)) &&                                   \
-   ((E)->gv_env_size == 0 ? (E)->env_ == NULL : __CPROVER_rw_ok((E)->env_, (E)->gv_env_size * sizeof(Float))))
+   __CPROVER_rw_ok((E)->env_, (E)->gv_env_size * sizeof(Float)))
 
 /* harness helper: an arbitrary envelope satisfying WF_SHAPE; row facts are instantiated at use sites */
 static void mk_envelope(struct Envelope *E)
@@ -50,8 +54,10 @@ static void mk_envelope(struct Envelope *E)
   E->gv_env_size = es;
   E->diag_ = malloc(d * sizeof(Float));
   E->xenv_ = malloc(((long)d + 2) * sizeof(Float *));
-  E->env_ = es ? malloc(es * sizeof(Float)) : NULL;
-  __CPROVER_assume(E->diag_ && E->xenv_ && (es == 0 || E->env_));
+  /* env_ is nullptr in the C++ object when es == 0; C++ defines nullptr-nullptr and nullptr+0, the C front end
+     reports them, so the null profile is represented by the base of an empty object (stated assumption). */
+  E->env_ = malloc(es * sizeof(Float));
+  __CPROVER_assume(E->diag_ && E->xenv_ && E->env_);
 }
 
 /* harness helper: rhs with room for n Floats, either a separate object or a window of env_ (the aliasing
@@ -96,6 +102,142 @@ __CPROVER_loop_invariant(SAME(e, b) && OFF(b) <= OFF(e) && OFF(e) <= OFF(self->x
 __CPROVER_decreases(OFF(e))
 //@ end
 
+
+/* ------------------------------------------------------------------------------------------------ */
+/* diagonalSolve: rhs[k] /= d[k], and an EXACT zero where the pivot is zero (C16: "exact zeros on dependent
+   pivots").  gv_k0 is a ghost index chosen by the harness (forall-introduction).                      */
+//@ contract Envelope_diagonalSolve
+__CPROVER_requires(WF_SHAPE(self))
+__CPROVER_requires(stop >= 0 && stop <= self->dim_ && 1 <= start && start <= stop + 1)
+__CPROVER_requires(stop >= start ==> __CPROVER_rw_ok(rhs, ((long)stop - start + 1) * sizeof(Float)))
+__CPROVER_requires(stop >= start ==> (SAME(rhs, self->env_) || (!SAME(rhs, self->diag_) && !SAME(rhs, self->xenv_) && !SAME(rhs, self))))
+__CPROVER_assigns(stop >= start: __CPROVER_object_whole(rhs))
+__CPROVER_ensures((start <= gv_k0 && gv_k0 <= stop && self->diag_[gv_k0 - 1] == 0) ==> rhs[gv_k0 - start] == 0)
+//@ entry Envelope_diagonalSolve
+GV_CANARY("Envelope_diagonalSolve entry");
+Float *const gv_rhs0 = rhs;
+const Index gv_start0 = start;
+//@ loop Envelope_diagonalSolve 1
+__CPROVER_assigns(start, rhs, d; stop >= gv_start0: __CPROVER_object_whole(gv_rhs0))
+__CPROVER_loop_invariant(gv_start0 <= start && start <= stop + 1 && SAME(rhs, gv_rhs0) &&
+                         OFF(rhs) == OFF(gv_rhs0) + FSZ * ((long)start - gv_start0) && SAME(d, self->diag_) &&
+                         OFF(d) == OFF(self->diag_) + FSZ * ((long)start - 1) &&
+                         ((gv_start0 <= gv_k0 && gv_k0 < start && self->diag_[gv_k0 - 1] == 0) ==> gv_rhs0[gv_k0 - gv_start0] == 0))
+__CPROVER_decreases((long)stop + 1 - start)
+//@ head Envelope_diagonalSolve 1
+GV_ANCHOR(rhs, gv_rhs0 + (start - 1 - gv_start0));
+GV_ANCHOR(d, self->diag_ + (start - 2));
+//@ end
+
+/* ------------------------------------------------------------------------------------------------ */
+/* upperSolve: rhs is indexed from row 1 (rhs[row-1] belongs to row), so it must hold `stop` elements. */
+//@ contract Envelope_upperSolve
+__CPROVER_requires(WF_SHAPE(self))
+__CPROVER_requires(1 <= start && start <= stop && stop <= self->dim_)
+__CPROVER_requires(__CPROVER_rw_ok(rhs, (long)stop * sizeof(Float)))
+__CPROVER_requires(!SAME(rhs, self->env_) && !SAME(rhs, self->diag_) && !SAME(rhs, self->xenv_) && !SAME(rhs, self))
+__CPROVER_assigns(__CPROVER_object_whole(rhs))
+//@ entry Envelope_upperSolve
+GV_CANARY("Envelope_upperSolve entry");
+Float *const gv_rhs0 = rhs;
+//@ loop Envelope_upperSolve 1
+__CPROVER_assigns(row, b, e, col, rhs, __CPROVER_object_whole(gv_rhs0))
+__CPROVER_loop_invariant(start - 1 <= row && row <= stop && SAME(rhs, gv_rhs0) &&
+                         /* unsigned form: rhs is one-before-the-array when the loop exits with start == 1 */
+                         __CPROVER_POINTER_OFFSET(rhs) + 8ul == __CPROVER_POINTER_OFFSET(gv_rhs0) + 8ul * (unsigned long)row)
+__CPROVER_decreases((long)row - start + 1)
+//@ head Envelope_upperSolve 1
+GV_ANCHOR(rhs, gv_rhs0 + (row - 1));
+GV_INST(1 <= row && row <= self->dim_, WF_ROW(self, row));
+//@ loop Envelope_upperSolve 2
+__CPROVER_assigns(b, col, __CPROVER_object_whole(gv_rhs0))
+__CPROVER_loop_invariant(SAME(b, e) && OFF(self->xenv_[row]) <= OFF(b) && OFF(b) <= OFF(e) &&
+                         (OFF(e) - OFF(b)) % FSZ == 0 && SAME(col, gv_rhs0) &&
+                         OFF(col) == OFF(rhs) - (OFF(e) - OFF(b)))
+__CPROVER_decreases(OFF(e) - OFF(b))
+//@ head Envelope_upperSolve 2
+GV_ANCHOR(col, rhs - (e - b));
+//@ end
+
+/* ------------------------------------------------------------------------------------------------ */
+/* element(i,j): address of L(max,min) inside the profile, NULL exactly outside the row band, symmetric. */
+//@ contract Envelope_element
+__CPROVER_requires(WF_SHAPE(self))
+__CPROVER_requires(1 <= i && i <= self->dim_ && 1 <= j && j <= self->dim_)
+__CPROVER_requires(WF_ROW(self, GV_MAX(i, j)))
+__CPROVER_assigns()
+__CPROVER_ensures(i == j ==> __CPROVER_return_value == self->diag_ + (i - 1))
+__CPROVER_ensures((i != j && GV_MAX(i, j) - GV_MIN(i, j) > ROWLEN(self, GV_MAX(i, j))) ==> __CPROVER_return_value == NULL)
+__CPROVER_ensures((i != j && GV_MAX(i, j) - GV_MIN(i, j) <= ROWLEN(self, GV_MAX(i, j))) ==>
+                  __CPROVER_return_value == self->xenv_[GV_MAX(i, j) + 1] - (GV_MAX(i, j) - GV_MIN(i, j)))
+//@ entry Envelope_element
+GV_CANARY("Envelope_element entry");
+//@ contract Envelope_element_const
+__CPROVER_requires(WF_SHAPE(self))
+__CPROVER_requires(1 <= i && i <= self->dim_ && 1 <= j && j <= self->dim_)
+__CPROVER_requires(WF_ROW(self, GV_MAX(i, j)))
+__CPROVER_assigns()
+__CPROVER_ensures(i == j ==> __CPROVER_return_value == self->diag_ + (i - 1))
+__CPROVER_ensures((i != j && GV_MAX(i, j) - GV_MIN(i, j) > ROWLEN(self, GV_MAX(i, j))) ==> __CPROVER_return_value == NULL)
+__CPROVER_ensures((i != j && GV_MAX(i, j) - GV_MIN(i, j) <= ROWLEN(self, GV_MAX(i, j))) ==>
+                  __CPROVER_return_value == self->xenv_[GV_MAX(i, j) + 1] - (GV_MAX(i, j) - GV_MIN(i, j)))
+//@ entry Envelope_element_const
+GV_CANARY("Envelope_element_const entry");
+//@ end
+
+
+/* ------------------------------------------------------------------------------------------------ */
+//@ contract Envelope_begin
+__CPROVER_requires(__CPROVER_r_ok(self->xenv_ + i, sizeof(Float *)))
+__CPROVER_assigns()
+__CPROVER_ensures(__CPROVER_return_value == self->xenv_[i])
+//@ contract Envelope_end
+__CPROVER_requires(__CPROVER_r_ok(self->xenv_ + i + 1, sizeof(Float *)))
+__CPROVER_assigns()
+__CPROVER_ensures(__CPROVER_return_value == self->xenv_[i + 1])
+//@ end
+
+/* cholDec (in-place LDL').  Postconditions are taken from property C16 ("exact zeros on dependent pivots",
+   "all rank deficiencies"):
+   P1  every pivot is afterwards either an exact zero or at least tol in magnitude -- for EVERY row, row 1 included;
+   P2  defect_ is the number of rows whose pivot was zeroed.  The count is defined by the ghost counter gv_zeros:
+       it starts (just before the row loop) at [pivot 1 is zero] and is incremented at the end of the iteration of
+       `row` iff diag_[row-1] == 0; P1's invariant shows that a pivot is never touched after its own iteration, so
+       gv_zeros is the number of k with diag_[k-1] == 0 on return.
+   lowerSolve/diagonalSolve are replaced by their contracts (they are verified separately above).      */
+//@ contract Envelope_cholDec
+__CPROVER_requires(WF_SHAPE(self))
+__CPROVER_requires(tol == tol)                     /* not a NaN */
+__CPROVER_assigns(self->defect_, gv_zeros, gv_tol, __CPROVER_object_whole(self->diag_), __CPROVER_object_whole(self->env_))
+__CPROVER_ensures(gv_tol > 0 && (tol > 0 ==> gv_tol == tol))
+__CPROVER_ensures((1 <= gv_k0 && gv_k0 <= self->dim_) ==>
+                  (self->diag_[gv_k0 - 1] == 0 || GV_ABS_GE(self->diag_[gv_k0 - 1], gv_tol) || self->diag_[gv_k0 - 1] != self->diag_[gv_k0 - 1]))
+__CPROVER_ensures(self->defect_ == gv_zeros && 0 <= self->defect_ && self->defect_ <= self->dim_)
+//@ entry Envelope_cholDec
+GV_CANARY("Envelope_cholDec entry");
+//@ pre Envelope_cholDec 1
+gv_tol = tol;
+gv_zeros = (self->diag_[0] == 0) ? 1 : 0;
+//@ loop Envelope_cholDec 1
+__CPROVER_assigns(row, self->defect_, gv_zeros, __CPROVER_object_whole(self->diag_), __CPROVER_object_whole(self->env_))
+__CPROVER_loop_invariant(2 <= row && row <= self->dim_ + 1 && self->defect_ == gv_zeros && 0 <= self->defect_ &&
+                         self->defect_ <= row - 1 &&
+                         ((1 <= gv_k0 && gv_k0 < row) ==>
+                          (self->diag_[gv_k0 - 1] == 0 || GV_ABS_GE(self->diag_[gv_k0 - 1], tol) || self->diag_[gv_k0 - 1] != self->diag_[gv_k0 - 1])))
+__CPROVER_decreases((long)self->dim_ + 1 - row)
+//@ head Envelope_cholDec 1
+GV_INST(1 <= row && row <= self->dim_, WF_ROW(self, row));
+//@ tail Envelope_cholDec 1
+if (self->diag_[row - 1] == 0) gv_zeros++;
+//@ loop Envelope_cholDec 2
+__CPROVER_assigns(b, d, s)
+__CPROVER_loop_invariant(SAME(b, e) && OFF(self->xenv_[row]) <= OFF(b) && OFF(b) <= OFF(e) && (OFF(e) - OFF(b)) % FSZ == 0 &&
+                         SAME(d, self->diag_) && OFF(d) == FSZ * ((long)start - 1) + (OFF(b) - OFF(self->xenv_[row])))
+__CPROVER_decreases(OFF(e) - OFF(b))
+//@ post Envelope_cholDec 2
+GV_ANCHOR(d, self->diag_ + (row - 1));
+//@ end
+
 //@ harness
 void h_lowerSolve(void)
 {
@@ -106,5 +248,57 @@ void h_lowerSolve(void)
   Float *rhs = mk_rhs(&E, (long)stop - start + 1);
   Envelope_lowerSolve(&E, start, stop, rhs);
   GV_CANARY("h_lowerSolve end");
+}
+
+void h_diagonalSolve(void)
+{
+  struct Envelope E;
+  mk_envelope(&E);
+  Index start, stop, k0;
+  __CPROVER_assume(stop >= 0 && stop <= E.dim_ && 1 <= start && start <= stop + 1);
+  gv_k0 = k0;
+  Float *rhs = mk_rhs(&E, (long)stop - start + 1);
+  Envelope_diagonalSolve(&E, start, stop, rhs);
+  GV_CANARY("h_diagonalSolve end");
+}
+
+void h_upperSolve(void)
+{
+  struct Envelope E;
+  mk_envelope(&E);
+  Index start, stop;
+  __CPROVER_assume(1 <= start && start <= stop && stop <= E.dim_);
+  Float *rhs = malloc((long)stop * sizeof(Float));
+  __CPROVER_assume(rhs);
+  Envelope_upperSolve(&E, start, stop, rhs);
+  GV_CANARY("h_upperSolve end");
+}
+
+void h_element(void)
+{
+  struct Envelope E;
+  mk_envelope(&E);
+  Index i, j;
+  __CPROVER_assume(1 <= i && i <= E.dim_ && 1 <= j && j <= E.dim_);
+  __CPROVER_assume(WF_ROW(&E, GV_MAX(i, j)));
+  Float *p = Envelope_element(&E, i, j);
+  const Float *q = Envelope_element_const(&E, j, i);
+  __CPROVER_assert(p == q, "element(i,j) and element(j,i) are the same address (symmetric storage)");
+  __CPROVER_assert(p == NULL || (i == j ? SAME(p, E.diag_) : (SAME(p, E.env_) && OFF(p) >= OFF(E.xenv_[GV_MAX(i, j)]) && OFF(p) < OFF(E.xenv_[GV_MAX(i, j) + 1]))), "non-null element lies inside its row");
+  GV_CANARY("h_element end");
+}
+
+void h_cholDec(void)
+{
+  struct Envelope E;
+  mk_envelope(&E);
+  Float tol;
+  Index k0;
+  __CPROVER_assume(tol == tol);
+  gv_k0 = k0;
+  Index w_dim = E.dim_;          /* witness variables: make the counterexample readable for replay.cpp */
+  Float w_tol = tol, w_d0 = E.diag_[0];
+  Envelope_cholDec(&E, tol);
+  GV_CANARY("h_cholDec end");
 }
 //@ end
